@@ -28,6 +28,7 @@ def run(tier, t0):
         err.err1(prog, scope, table, floor=900),
         err.err3(prog),
         err.err4(prog),
+        err.eof_err(prog),
     ]
     return report.finish('C12', tier, results, EXPLANATION,
                          ['clang CFG edges are a superset of the feasible control flow',
